@@ -28,6 +28,16 @@ CHECKS["C10"] = dict(
     technique="Lean 4 proofs over Go->Lean translated definitions (Rat) + differential correspondence",
     design="5/C10", engine="contract")
 
+CHECKS["C20"] = dict(
+    text="Kernel-checked theorems over the *regenerated* conversions of hashrate.go: exact mutual inverses in Q (all inputs, all "
+         "non-zero durations), truncation bounds of the integer GH/s conversion, and a rounding theorem (any rounding function with "
+         "relative error u after every float operation: round trip off by at most (1+u)^4-1 < 6u); over models of the estimators: "
+         "the mean is total work over elapsed seconds and is defined and non-negative for the one-second interval the API uses, the "
+         "EMA stays within [0, sum of adds] for every ordered history and any decay in [0,1], the SMA sum invariant and "
+         "non-negativity. Real functions and estimators run against these under virtual time.",
+    technique="Lean 4 proofs over Go->Lean translated definitions (exact and rounded) + estimator models + differential correspondence",
+    design="5/C20", engine="hashrate")
+
 NOT_YET = {}
 
 ALL = ["C%02d" % i for i in range(1, 21)]
